@@ -293,7 +293,7 @@ var c07Shapes = []c07Shape{{
 }, {
 	// SVCB (not special-cased) in the answer; HTTPS and A in additional (not
 	// special-cased there).
-	Name: "resp_svcb_extra_https", Deep: true,
+	Name: "resp_svcb_extra_https",
 	Build: func() *dns.Msg {
 		return &dns.Msg{
 			MsgHdr:   dns.MsgHdr{Id: 0x100b, Response: true, RecursionAvailable: true},
@@ -359,7 +359,7 @@ var c07Shapes = []c07Shape{{
 	},
 }, {
 	// Types the cloner never special-cases.
-	Name: "resp_unhandled", Wire: true, Deep: true,
+	Name: "resp_unhandled", Wire: true,
 	Build: func() *dns.Msg {
 		return &dns.Msg{
 			MsgHdr:   dns.MsgHdr{Id: 0x100e, Response: true, RecursionAvailable: true, AuthenticatedData: true},
@@ -403,6 +403,49 @@ var c07Shapes = []c07Shape{{
 				&dns.EDNS0_COOKIE{Code: dns.EDNS0COOKIE, Cookie: "2222222222222222"},
 				&dns.EDNS0_SUBNET{Code: dns.EDNS0SUBNET, Family: 1, SourceNetmask: 32, Address: net.IP{192, 0, 2, 200}},
 				&dns.EDNS0_SUBNET{Code: dns.EDNS0SUBNET, Family: 2, SourceNetmask: 128, Address: c07IP6(0x70)},
+			})},
+		}
+	},
+}, {
+	// Request of a DoT/DoH client: the OPT holds nothing but padding, an
+	// option the cloner does not special-case, so the whole OPT takes the
+	// fallback at its FIRST option.
+	Name: "req_padding_only",
+	Build: func() *dns.Msg {
+		return &dns.Msg{
+			MsgHdr:   dns.MsgHdr{Id: 0x1013, RecursionDesired: true},
+			Question: c07Q("pad-only.example.", dns.TypeA),
+			Extra: []dns.RR{c07OPT(1232, true, []dns.EDNS0{
+				&dns.EDNS0_PADDING{Padding: make([]byte, 16)},
+			})},
+		}
+	},
+}, {
+	// OPT that STARTS with an option the cloner does not special-case
+	// (tcp-keepalive) followed by the three kinds it recycles.
+	Name: "req_keepalive_ecs_cookie_ede", Deep: true, Ctor: true,
+	Build: func() *dns.Msg {
+		return &dns.Msg{
+			MsgHdr:   dns.MsgHdr{Id: 0x1014, RecursionDesired: true, CheckingDisabled: true},
+			Question: c07Q("keepalive.example.", dns.TypeAAAA),
+			Extra: []dns.RR{c07OPT(4096, false, []dns.EDNS0{
+				&dns.EDNS0_TCP_KEEPALIVE{Code: dns.EDNS0TCPKEEPALIVE, Timeout: 100},
+				&dns.EDNS0_SUBNET{Code: dns.EDNS0SUBNET, Family: 1, SourceNetmask: 24, Address: net.IP{203, 0, 113, 0}},
+				&dns.EDNS0_COOKIE{Code: dns.EDNS0COOKIE, Cookie: "cafecafecafecafe"},
+				&dns.EDNS0_EDE{InfoCode: dns.ExtendedErrorCodeOther, ExtraText: "from the client"},
+			})},
+		}
+	},
+}, {
+	// Response whose OPT starts with NSID, followed by an EDE option.
+	Name: "resp_nsid_ede",
+	Build: func() *dns.Msg {
+		return &dns.Msg{
+			MsgHdr:   dns.MsgHdr{Id: 0x1015, Response: true, RecursionDesired: true, RecursionAvailable: true, Rcode: dns.RcodeServerFailure},
+			Question: c07Q("nsid.example.", dns.TypeA),
+			Extra: []dns.RR{c07OPT(1232, false, []dns.EDNS0{
+				&dns.EDNS0_NSID{Code: dns.EDNS0NSID, Nsid: "6e73"},
+				&dns.EDNS0_EDE{InfoCode: dns.ExtendedErrorCodeNetworkError, ExtraText: "upstream down"},
 			})},
 		}
 	},
@@ -465,6 +508,7 @@ var c07Shapes = []c07Shape{{
 // c07Ctors are constructors of every blocking mode that share one cloner, as
 // the profiles' and filtering groups' constructors do in production.
 type c07Ctors struct {
+	cl                        *Cloner
 	null, nx, refused, custom *Constructor
 }
 
@@ -490,6 +534,7 @@ func c07NewCtors(cl *Cloner) *c07Ctors {
 	}
 
 	return &c07Ctors{
+		cl:      cl,
 		null:    mk(&BlockingModeNullIP{}, true, true),
 		nx:      mk(&BlockingModeNXDOMAIN{}, true, false),
 		refused: mk(&BlockingModeREFUSED{}, false, false),
@@ -593,6 +638,64 @@ var c07Builds = []c07Build{{
 		cs.null.AddEDE(req, resp, dns.ExtendedErrorCodeForgedAnswer)
 
 		return resp
+	},
+}, {
+	// AddEDE on a response that already carries its own OPT (here: added the
+	// way ecscache.setECS does): only the EDE option comes from the pools,
+	// the OPT does not.
+	Name: "AddEDE onto a response with its own OPT(A,edns)",
+	Make: func(cs *c07Ctors) *dns.Msg {
+		req := c07Req(dns.TypeA, "edns")
+		resp := cs.null.NewRespRCode(req, dns.RcodeSuccess)
+		resp.Extra = append(resp.Extra, c07OPT(1232, false, []dns.EDNS0{
+			&dns.EDNS0_SUBNET{Code: dns.EDNS0SUBNET, Family: 1, SourceNetmask: 24, SourceScope: 24, Address: net.IP{198, 51, 100, 0}},
+		}))
+		cs.null.AddEDE(req, resp, dns.ExtendedErrorCodeBlocked)
+
+		return resp
+	},
+}, {
+	// What a cache miss does: the upstream response (OPT with an EDE option
+	// left after hop-to-hop filtering) is cloned into the cache, written and
+	// disposed by the server; the cached clone stays live.
+	Name: "cache miss: keep Clone(upstream resp with OPT{EDE}), Dispose(resp)",
+	Make: func(cs *c07Ctors) *dns.Msg {
+		resp := &dns.Msg{
+			MsgHdr:   dns.MsgHdr{Id: 0x2101, Response: true, RecursionDesired: true, RecursionAvailable: true, Rcode: dns.RcodeServerFailure},
+			Question: c07Q("stale.example.", dns.TypeA),
+			Extra: []dns.RR{c07OPT(1232, false, []dns.EDNS0{
+				&dns.EDNS0_EDE{InfoCode: dns.ExtendedErrorCodeStaleAnswer, ExtraText: "stale"},
+				&dns.EDNS0_EDE{InfoCode: dns.ExtendedErrorCodeNoReachableAuthority, ExtraText: "unreachable"},
+			})},
+		}
+		cached := cs.cl.Clone(resp)
+		cs.cl.Dispose(resp)
+
+		return cached
+	},
+}, {
+	// What ecscache / hashprefix / the debug path do with every request:
+	// clone it.  A DoT/DoH client's OPT starts with padding.
+	Name: "request clone: Clone(req, OPT{padding,subnet,cookie})",
+	Make: func(cs *c07Ctors) *dns.Msg {
+		req := c07Req(dns.TypeA, "plain")
+		req.Extra = []dns.RR{c07OPT(1232, true, []dns.EDNS0{
+			&dns.EDNS0_PADDING{Padding: make([]byte, 8)},
+			&dns.EDNS0_SUBNET{Code: dns.EDNS0SUBNET, Family: 1, SourceNetmask: 24, Address: net.IP{192, 0, 2, 0}},
+			&dns.EDNS0_COOKIE{Code: dns.EDNS0COOKIE, Cookie: "0011223344556677"},
+		})}
+
+		return cs.cl.Clone(req)
+	},
+}, {
+	Name: "request clone: Clone(req, OPT{tcp-keepalive})",
+	Make: func(cs *c07Ctors) *dns.Msg {
+		req := c07Req(dns.TypeAAAA, "plain")
+		req.Extra = []dns.RR{c07OPT(4096, false, []dns.EDNS0{
+			&dns.EDNS0_TCP_KEEPALIVE{Code: dns.EDNS0TCPKEEPALIVE, Timeout: 300},
+		})}
+
+		return cs.cl.Clone(req)
 	},
 }}
 
@@ -871,6 +974,8 @@ func c07MutateRR(rr dns.RR) {
 				o.Nsid = "aabb"
 			case *dns.EDNS0_PADDING:
 				c07Flip(o.Padding)
+			case *dns.EDNS0_TCP_KEEPALIVE:
+				o.Timeout++
 			}
 		}
 	}
@@ -1742,14 +1847,20 @@ func TestVerifC07Cloner(t *testing.T) {
 	r.Note("constructor part: B calls: %s; N alphabet: %s; all mutation kinds", strings.Join(buildNames, ", "), strings.Join(ctorNames, ", "))
 	vrt.Part(r, "cloner-build", func(emit func(c07Case)) {
 		for l := 1; l <= bdepth; l++ {
-			c07Gen(l, ctorN, builds, c07MutKinds, mine, emit)
+			muts := c07MutKinds
+			if l == bdepth && !r.Thorough() {
+				// Quick: the longest histories without the filtering
+				// mutation, which only takes parts away before a release.
+				muts = []string{"ttl", "inplace", "append"}
+			}
+			c07Gen(l, ctorN, builds, muts, mine, emit)
 		}
 		if r.Thorough() {
-			c07Gen(bdepth+1, ctorN, builds, []string{"ttl", "inplace"}, mine, emit)
+			c07Gen(bdepth+1, ctorN, builds, []string{"ttl"}, mine, emit)
 		}
 	}, run)
 	if r.Thorough() {
-		r.Bound("cloner_build_history_length_two_mutation_kinds", bdepth+1)
+		r.Bound("cloner_build_history_length_ttl_mutation_only", bdepth+1)
 	}
 	r.Finish()
 	os.Exit(0)
